@@ -20,6 +20,8 @@ CORE = [
     ["LOGGER fg 6", "PRODUCER 1 L3:4:0 L2:1:1", "PRODUCER 2 L4:9:2 L6:0:0"],
     ["LOGGER bg 6", "PRODUCER 1 L1:1:0 L1:2:0 L1:3:0", "PRODUCER 2 L2:1:0 L2:2:0", "PRODUCER 3 L3:1:0"],
     ["LOGGER bg 0", "PRE L1:1:0", "POST S1 L1:2:0 L2:1:0"],
+    ["LOGGER na 6", "PRODUCER 1 L3:4:0 L2:1:1", "PRODUCER 2 L4:9:2 L6:0:0"],
+    ["LOGGER na 4", "PRE L3:1:0", "PRODUCER 1 L3:40:0 L5:2:0 L1:3:3", "PRODUCER 2 L2:300:1", "PRODUCER 3 L4:0:2", "POST S6 L6:2:0"],
 ]
 
 
@@ -37,7 +39,7 @@ def rand_ops(rng, n, with_set):
 
 
 def random_scenario(rng):
-    lines = ["LOGGER %s %d" % (rng.choice(["bg", "bg", "fg"]), rng.randint(0, 6))]
+    lines = ["LOGGER %s %d" % (rng.choice(["bg", "bg", "fg", "na"]), rng.randint(0, 6))]
     if rng.random() < 0.6:
         lines.append("PRE " + " ".join(rand_ops(rng, rng.randint(1, 4), True)))
     for k in range(1, rng.randint(0, 3) + 1):
